@@ -1,8 +1,8 @@
-(* CorePhase2AcctKfd.v -- the descriptor layer leaves a descriptor t alone as long as the
+(* CorePhase2K1Fd.v -- the descriptor layer leaves a descriptor t alone as long as the
    descriptor object it works on has another number (state-level frame KF). *)
 From Coq Require Import List ZArith Bool Lia.
 From Ivv Require Import Core.Kernel Core.CoreTypes Core.CoreFd Core.CoreModel Core.CoreRelBase
-  Core.CorePhase2AcctTr Core.CorePhase2AcctFd Core.CorePhase2AcctKt.
+  Core.CorePhase2K1Base.
 Import ListNotations.
 Local Open Scope Z_scope.
 
